@@ -14,6 +14,8 @@ tier = sys.argv[1]
 ROOT = os.environ.get("VERIF_ROOT", "/verif")
 SYSMON = os.path.join(ROOT, "target", "sysmon")
 R = Report()
+# process start-up dominates the cost of a run: use the optimised build of the same tree when the entry script built one
+JAQ_FAST = os.environ.get("JAQ_BIN_RELEASE") if os.path.exists(os.environ.get("JAQ_BIN_RELEASE", "/nonexistent")) else JAQ
 
 def scenarios():
     S = []
@@ -48,6 +50,10 @@ def scenarios():
         add("3files/third-fails", [inputs["tiny"], inputs["tiny"], inputs["two"]], 'if .a == 2 then error("x") else .a |= . + 1 end')
         add("1file/toml", [b"a = 1\n[b]\nc = \"x\"\n"], ".a |= . + 1", fmt="toml")
         add("2files/empty-output-then-incr", [inputs["tiny"], inputs["tiny"]], "if input_filename | test(\"f0\") then empty else .a |= . + 1 end")
+    if tier == "quick":
+        keep = {"1file/identity/tiny", "1file/incr/tiny", "1file/shrink/two", "1file/empty/tiny", "1file/err0/tiny", "1file/err1/two", "1file/halt1/tiny", "1file/second_fails/two", "1file/incr/empty",
+                "1file/parse-error-at-1", "1file/identity/mode444", "1file/incr/abs", "2files/second-fails", "2files/incr"}
+        S = [sc for sc in S if sc["name"] in keep]
     return S
 
 def setup(sc, d):
@@ -82,7 +88,7 @@ def expected_outputs(sc, d):
     res = []
     paths, abss = setup(sc, d)
     for p in paths:
-        pr = subprocess.run([JAQ, sc["filter"], p], cwd=d, stdout=subprocess.PIPE, stderr=subprocess.PIPE)
+        pr = subprocess.run([JAQ_FAST, sc["filter"], p], cwd=d, stdout=subprocess.PIPE, stderr=subprocess.PIPE)
         res.append((pr.stdout, pr.returncode == 0))
     return res
 
@@ -98,7 +104,7 @@ def run_case(sc, exp, inject):
             if inject[0] == "kill": cmd += ["--kill-before", str(inject[1])]
             elif inject[0] == "fail": cmd += ["--fail", str(inject[1]), str(inject[2])]
             else: cmd += ["--short-write", str(inject[1])]
-        cmd += ["--", JAQ, "-i", sc["filter"]] + paths
+        cmd += ["--", JAQ_FAST, "-i", sc["filter"]] + paths
         subprocess.run(cmd, cwd=d, stdout=subprocess.PIPE, stderr=subprocess.PIPE, timeout=60)
         lines = open(log, errors="replace").read().splitlines()
         status = next((l for l in reversed(lines) if l.startswith(("EXIT", "SIGNAL"))), "EXIT ?")
@@ -158,7 +164,7 @@ def run_case(sc, exp, inject):
         shutil.rmtree(d, ignore_errors=True)
 
 FAILABLE = ("openat", "open", "write", "renameat", "rename", "renameat2", "statx", "chmod", "fchmod", "close", "unlink", "unlinkat", "newfstatat", "fstat")
-ERRNOS = (5, 28, 13) if tier == "quick" else (5, 28, 13, 4, 30)   # EIO ENOSPC EACCES EINTR EROFS
+ERRNOS = (28, 13) if tier == "quick" else (5, 28, 13, 4, 30)   # EIO ENOSPC EACCES EINTR EROFS
 
 def explore(sc):
     out = []   # (key, nontrivial, outcome, problems)
